@@ -43,19 +43,55 @@ def extract_guarded_ops(prog, E, body, arg):
     """[(op, constant, target local, {guard masks})] for every `x = x op const` in the body"""
     sites = {}
 
+    root = body['name']
+
     def hook(E_, st, frame, bb, idx, stmt, v):
-        if frame.depth != 0:
+        # the function itself, or a closure of it (a table-driven rewrite folds over (mask, bit) pairs)
+        if frame.depth != 0 and not frame.body['name'].startswith(root + '::{closure'):
             return
         rv = stmt['rv']
-        if rv['k'] == 'bin' and rv['op'] in ('BitOr', 'BitXor') and rv['r']['k'] == 'const' and 'int' in rv['r']['v']:
-            key = (bb, idx)
-            s = sites.setdefault(key, {'op': rv['op'], 'k': int(rv['r']['v']['int']), 'target': stmt['pl']['l'], 'facts': [], 'sp': stmt.get('sp')})
+        if rv['k'] == 'bin' and rv['op'] in ('BitOr', 'BitXor'):
+            kval = None
+            if rv['r']['k'] == 'const' and 'int' in rv['r']['v']:
+                kval = int(rv['r']['v']['int'])
+            elif frame.depth != 0:
+                for side in ('r', 'l'):
+                    x = E_.scalar(st, E_.operand(st, frame, rv[side]))
+                    if x[0] == 'I' and x[1] == x[2]:
+                        kval = x[1]
+                        break
+            if kval is None:
+                return
+            key = (frame.body['name'], bb, idx, kval if frame.depth != 0 else None)
+            s = sites.setdefault(key, {'op': rv['op'], 'k': kval, 'target': stmt['pl']['l'], 'facts': [], 'sp': stmt.get('sp')})
+            s['facts'].append(st.facts)
+    def chook(E_, frame, bb, t, sts, c):
+        # `acc | bit` on references is a call of <u16 as BitOr<&u16>>::bitor
+        if c.get('item') not in ('bitor', 'bitxor') or not frame.body['name'].startswith(root + '::{closure'):
+            return
+        for st in sts:
+            kval = None
+            for a_ in t['args']:
+                x = E_.operand(st, frame, a_)
+                x = st.resolve(E_.expand(x))
+                if x != A.BOT and x[0] == 'R':
+                    import models
+                    x = models.deref(E_, st, x)
+                x = E_.scalar(st, x)
+                if x[0] == 'I' and x[1] == x[2]:
+                    kval = x[1]
+            if kval is None:
+                continue
+            key = (frame.body['name'], bb, 'call', kval)
+            s = sites.setdefault(key, {'op': 'BitOr' if c['item'] == 'bitor' else 'BitXor', 'k': kval, 'target': t['dest']['l'], 'facts': [], 'sp': t.get('sp')})
             s['facts'].append(st.facts)
     E.stmt_hook = hook
+    E.call_hook = chook
     rets = runner.run_entry(E, body, [arg])
     E.stmt_hook = None
+    E.call_hook = None
     out = []
-    for key in sorted(sites):
+    for key in sorted(sites, key=str):
         s = sites[key]
         out.append((s['op'], s['k'], s['target'], guards_at(s['facts']), s['sp']))
     return out, rets
